@@ -396,8 +396,15 @@ def compute_gradient_and_dynamics(
             current_node, current_edges = _apply_system_superoperator(
                 current_node, current_edges, second_half_prop.T)
 
-            current_node, current_edges = _apply_pt_mpos(
-                current_node, current_edges, pt_mpos)
+            # the adjoint of applying the MPOs in list order is applying
+            # the swapped MPOs in reverse list order (they share the
+            # system leg)
+            for i in reversed(range(num_envs)):
+                single_mpo = [None] * num_envs
+                single_mpo[i] = pt_mpos[i]
+                current_node, current_edges = _apply_pt_mpos(
+                    current_node, current_edges, single_mpo)
+            current_node.reorder_edges(current_edges)
 
             current_node, current_edges = _apply_system_superoperator(
                 current_node, current_edges, first_half_prop.T)
